@@ -116,7 +116,12 @@ func c34Gen(rt *rapid.T) c34Case {
 		} else if n > 0 {
 			frac = rapid.StringOfN(rapid.RuneFrom([]rune("0123456789")), n, n, n).Draw(rt, "frac")
 		}
-		return c34Case{Kind: "string", Int: strconv.FormatUint(i, 10), Frac: frac}
+		// a decimal string may carry leading zeros in its integer part ("010.5" is ten and a half)
+		zeros := ""
+		if rapid.IntRange(0, 3).Draw(rt, "leadzeros") == 0 {
+			zeros = strings.Repeat("0", rapid.IntRange(1, 3).Draw(rt, "nzeros"))
+		}
+		return c34Case{Kind: "string", Int: zeros + strconv.FormatUint(i, 10), Frac: frac}
 	}
 }
 
@@ -214,6 +219,9 @@ func c34Run(c c34Case, st *vstat.Stats) error {
 		}
 		if !c34FracBinaryExact(frac9) {
 			labels = append(labels, "fraction-not-binary-exact")
+		}
+		if len(c.Int) > 1 && c.Int[0] == '0' {
+			labels = append(labels, "integer-part-with-leading-zeros")
 		}
 		s := c34Str(c)
 		st.Case(nt, "s"+s, labels...)
